@@ -134,6 +134,8 @@ def gen(tier, rng):
     cases += [("writers:%d" % i, p) for i, p in enumerate(writers_in_propagation())]
     cases += [("random:%d" % i, p) for i, p in
               enumerate(reactive_gen.random_programs(rng.randrange(1 << 30), n_rand, FEATS, (3, 8), (3, 7)))]
+    # the same untrack blocks (and batches) entered while another root is the current one
+    cases += rcheck.via_foreign_copies(cases, every=3)
     return cases
 
 
